@@ -134,8 +134,8 @@ def coq_case(pool, case):
 # ------------------------------------------------------------------------------------------------
 # implementation side
 
-def build(ctx, rep, release=False):
-    ok, paths, log = vlib.cargo_build(ctx, "dispatch", ["h_dispatch"], release=release)
+def build(ctx, rep, release=False, features=None):
+    ok, paths, log = vlib.cargo_build(ctx, "dispatch", ["h_dispatch"], release=release, features=features)
     if not ok:
         rep.tie("build:h_dispatch", False, vlib.last_error(log))
         return None, None
